@@ -20,6 +20,8 @@ RULE = (
     "property) is still defined (symtable, any binding form) in the output. non-trivial = safe-mode formatting changed "
     "the text"
 )
+RULE += (" the surface alphabet includes definitions placed after 14 module-level statements that cannot (or only seem unable to) be passed: raise, assert False, "
+         "while True, if/else both raising, with-suppress raise, try/finally raise, for-raise, sys.exit(), ...")
 ASSUMPTIONS = [
     "'still defined' is lenient: any binding form at module scope / in the class of the same name counts",
     "a format_code call that raises or returns invalid text is C04's / C03's business (blocked here)",
